@@ -111,6 +111,43 @@ func checkCoinSelectorArithmetic(c *core.Ctx) {
 			}
 		}
 	}
+	// (stored sets) putTxos is the one writer behind putUtxos / putStxos: it stores the list it is
+	// given on EVERY call — also the empty list, which is how "the withdrawal drained this key"
+	// is recorded.  Skipping the write for an empty list leaves the previous, non-empty unspent
+	// set in place and the spent outputs are selected again.
+	if pt := c.Fn(pkBtc, "putTxos"); pt != nil {
+		var rets []ir.Sink
+		for _, b := range pt.Blocks {
+			if len(b.Instrs) > 0 {
+				if r, ok := b.Instrs[len(b.Instrs)-1].(*ssa.Return); ok && b != pt.Recover {
+					rets = append(rets, ir.Sink{Instr: r, Note: "return"})
+				}
+			}
+		}
+		puts := ir.Calls(pt, func(ci ssa.CallInstruction) bool {
+			o := ir.CalleeObj(ci)
+			return o != nil && o.Name() == "Put" && recvNamedCI(ci, "CacheDB")
+		})
+		c.Decide(len(puts) == 1, "C26.sets-always-stored", pt, "one CacheDB.Put in putTxos", c.P.Rel(pt.Pos()), sprintf("%d", len(puts)))
+		if len(puts) == 1 && len(rets) > 0 {
+			r := ir.NewReach(pt)
+			r.Barrier[puts[0]] = true
+			r.Run(nil)
+			bad := ""
+			for _, s := range rets {
+				if r.SinkReachable(s) {
+					bad = "a return of putTxos is reachable without the write; path " + r.Path(c.P, s.Instr)
+				}
+			}
+			c.Decide(bad == "", "C26.sets-always-stored", pt, "putTxos stores the given list on every call (the empty list included)", c.P.Rel(puts[0].Pos()), bad)
+		}
+		for _, w := range []string{"putUtxos", "putStxos"} {
+			if wf := c.Fn(pkBtc, w); wf != nil {
+				calls := ir.Calls(wf, func(ci ssa.CallInstruction) bool { return ci.Common().StaticCallee() == pt })
+				c.Decide(len(calls) == 1, "C26.sets-always-stored", wf, w+" delegates to putTxos", c.P.Rel(wf.Pos()), sprintf("%d calls", len(calls)))
+			}
+		}
+	}
 	c.Floor("uses of the minimum-change field in the coin selector", nMC, 3)
 	c.Floor("capacity-limited appends in the coin selector", nApp, 1)
 }
